@@ -130,8 +130,20 @@ struct St {
 
 pub struct Exec {
     st: Mutex<St>,
+    /// controller's condvar (completion / abort)
     cv: Condvar,
+    /// one condvar per model thread: only the chosen thread is woken at a scheduling point
+    tcv: Vec<Condvar>,
     names: HashMap<usize, String>,
+}
+
+impl Exec {
+    fn wake_all(&self) {
+        self.cv.notify_all();
+        for c in &self.tcv {
+            c.notify_all();
+        }
+    }
 }
 
 struct AbortToken;
@@ -167,7 +179,7 @@ pub fn unmodelled(what: &str) {
         if st.abort.is_none() {
             st.abort = Some(Abort::Unmodelled(what.to_string()));
         }
-        e.cv.notify_all();
+        e.wake_all();
     }
 }
 
@@ -241,7 +253,7 @@ impl Exec {
     /// Called with the state lock held, when the baton holder has reached a point.
     fn decide(&self, st: &mut St) {
         if st.abort.is_some() || st.done {
-            self.cv.notify_all();
+            self.wake_all();
             return;
         }
         st.last_progress = Instant::now();
@@ -277,13 +289,13 @@ impl Exec {
             } else {
                 st.abort = Some(Abort::Deadlock(self.describe(st)));
             }
-            self.cv.notify_all();
+            self.wake_all();
             return;
         }
         let pos = st.trace.len();
         if pos >= st.horizon {
             st.abort = Some(Abort::Horizon(pos));
-            self.cv.notify_all();
+            self.wake_all();
             return;
         }
         let idx = if pos < st.choices.len() {
@@ -298,7 +310,7 @@ impl Exec {
                 pos,
                 enabled.len()
             )));
-            self.cv.notify_all();
+            self.wake_all();
             return;
         }
         let chosen = enabled[idx];
@@ -332,7 +344,7 @@ impl Exec {
         });
         let h = self.state_hash(st);
         st.state_hashes.push(h);
-        self.cv.notify_all();
+        self.tcv[chosen].notify_all();
     }
 
     fn wait_for_baton(&self, t: usize, mut st: std::sync::MutexGuard<'_, St>) {
@@ -344,7 +356,7 @@ impl Exec {
             if st.current == Some(t) && matches!(st.threads[t].status, Status::Running) {
                 return;
             }
-            st = self.cv.wait(st).unwrap();
+            st = self.tcv[t].wait(st).unwrap();
         }
     }
 
@@ -446,6 +458,7 @@ pub fn run_execution(bodies: Vec<Body>, cfg: ExecConfig) -> Outcome {
             last_progress: Instant::now(),
         }),
         cv: Condvar::new(),
+        tcv: (0..n).map(|_| Condvar::new()).collect(),
         names: cfg.lock_names,
     });
     let panics: Arc<Mutex<Vec<String>>> = Arc::new(Mutex::new(Vec::new()));
@@ -496,7 +509,7 @@ pub fn run_execution(bodies: Vec<Body>, cfg: ExecConfig) -> Outcome {
                     cfg.watchdog,
                     exec.describe(&st)
                 )));
-                exec.cv.notify_all();
+                exec.wake_all();
                 // threads blocked on an unintercepted primitive cannot be unwound: give up on join
                 let out = Outcome {
                     trace: st.trace.clone(),
